@@ -1417,6 +1417,124 @@ def check_path_tokens(facts, out):
                         'survive encode -> decode for paths the curve fit leaves shorter'), ordinal=False)
 
 
+def _name_predicate_vectors(facts, enc):
+    """truth vectors over (hitnormal, hitwhistle, hitfinish, hitclap, a file sample) of every boolean predicate in the
+    (inlined) encoder function that looks at a sample's `name` -- constant folding, nothing is run"""
+    import symeval as SE
+    from hp import strip as _strip
+    HS = 'section::hit_objects::hit_samples::'
+
+    def const_body(path_node):
+        d = path_node.get('def')
+        h = facts.hir.get(d) if d and dict.__contains__(facts.hir, d) else None
+        if h is None:
+            return None
+        b = h['body']
+        return H.peel(b.get('expr') if b.get('k') == 'block' and not b.get('stmts') else b)
+
+    def norm(e, depth=0):
+        """canonical form of a constant constructor value: ('Default', ('Whistle',)) / ('File', '?') / None"""
+        e = _strip(H.peel(e))
+        if not isinstance(e, dict) or depth > 4:
+            return None
+        if e.get('k') == 'path' and e.get('dk', '').startswith(('AssocConst', 'Const')):
+            cb = const_body(e)
+            return norm(cb, depth + 1) if cb is not None else None
+        if e.get('k') == 'path' and 'Ctor' in e.get('dk', ''):
+            return (e.get('name'),)
+        if e.get('k') == 'call' and e['f'].get('k') == 'path' and 'Ctor' in e['f'].get('dk', ''):
+            args = tuple(norm(a, depth + 1) or '?' for a in e['args'])
+            return (e['f'].get('name'),) + args
+        if e.get('k') == 'abstract':
+            return e['v']
+        return None
+    abstract = [('Default', ('Normal',)), ('Default', ('Whistle',)), ('Default', ('Finish',)), ('Default', ('Clap',)), ('File', '?')]
+
+    def as_ctor_expr(v):
+        if v[0] == 'File':
+            return {'k': 'call', 'f': {'k': 'path', 'name': 'File', 'dk': 'Ctor(Variant, Fn)', 'def': HS + 'HitSampleInfoName::File'},
+                    'args': [{'k': 'unknown'}]}
+        return {'k': 'call', 'f': {'k': 'path', 'name': 'Default', 'dk': 'Ctor(Variant, Fn)', 'def': HS + 'HitSampleInfoName::Default'},
+                'args': [{'k': 'path', 'name': v[1][0], 'dk': 'Ctor(Variant, Const)', 'def': HS + 'HitSampleDefaultName::' + v[1][0]}]}
+
+    def fold(e, name_val, depth=0):
+        e = _strip(H.peel(e))
+        if not isinstance(e, dict) or depth > 12:
+            return None
+        k = e.get('k')
+        if k == 'lit' and e.get('t') == 'bool':
+            return bool(e['v'])
+        if k == 'unary' and e.get('op') == 'Not':
+            v = fold(e['e'], name_val, depth + 1)
+            return None if v is None else (not v)
+        if k == 'binary' and e.get('op') in ('And', 'Or'):
+            a, b = fold(e['a'], name_val, depth + 1), fold(e['b'], name_val, depth + 1)
+            if e['op'] == 'And':
+                if a is False or b is False:
+                    return False
+                return True if (a is True and b is True) else None
+            if a is True or b is True:
+                return True
+            return False if (a is False and b is False) else None
+        if k == 'binary' and e.get('op') in ('Eq', 'Ne'):
+            a, b = norm(e['a']), norm(e['b'])
+            if a is None or b is None:
+                return None
+            if a[0] != b[0]:
+                return e['op'] == 'Ne'          # different variants are different whatever they carry
+            if '?' in repr(a) + repr(b):
+                return None
+            return (a == b) if e['op'] == 'Eq' else (a != b)
+        if k in ('match', 'if', 'block'):
+            t = SE.SymEval(None, budget=500).value(e, {})
+            while t[0] == 'ite':
+                c = t[1]
+                if c[0] == 'pat':
+                    st_, _b = SE.SymEval.static_pat(c[1], c[2])
+                    if st_ is None:
+                        return None
+                    t = t[2] if st_ else t[3]
+                else:
+                    v = fold(c[1], name_val, depth + 1)
+                    if v is None:
+                        return None
+                    t = t[2] if v else t[3]
+            return fold(t[1], name_val, depth + 1) if isinstance(t[1], dict) else None
+        return None
+
+    def subst_name(e, param, val_expr):
+        """`<param>.name`, `*<param>` (when the parameter is the name itself) -> the abstract name"""
+        if isinstance(e, dict):
+            if e.get('k') == 'field' and e.get('n') == 'name':
+                base = H.peel(e['e'])
+                if isinstance(base, dict) and base.get('k') == 'local':
+                    return val_expr
+            if e.get('k') == 'local' and e.get('name') == param and 'HitSampleInfoName' in (e.get('ty') or ''):
+                return val_expr
+            return {k2: (v2 if k2 in H.CHILD_SKIP else subst_name(v2, param, val_expr)) for k2, v2 in e.items()}
+        if isinstance(e, list):
+            return [subst_name(x, param, val_expr) for x in e]
+        return e
+    preds = []
+
+    def v(n, anc):
+        if n.get('k') == 'closure' and len(n.get('params', [])) == 1 and n['params'][0].get('k') == 'bind':
+            body = n['body']
+            if "'n': 'name'" in repr(body)[:6000] or 'HitSampleInfoName' in repr(n['params'][0])[:200] or 'HitSampleInfoName' in repr(body)[:3000]:
+                preds.append((n['params'][0]['name'], body))
+        if n.get('k') == 'if' and "'n': 'name'" in repr(n['c'])[:6000]:
+            preds.append((None, n['c']))
+    H.walk(enc['body'], v)
+    vecs = set()
+    for param, body in preds:
+        vec = []
+        for a in abstract:
+            vec.append(fold(subst_name(body, param, as_ctor_expr(a)), a))
+        if None not in vec:
+            vecs.add(tuple(vec))
+    return vecs
+
+
 def check_sample_banks(facts, out):
     """K6: which samples carry the addition bank.  Decoder: convert_sound_type builds the samples
     that get `bank_for_addition`; encoder: get_sample_bank's addition-bank lookup must select exactly
@@ -1510,5 +1628,15 @@ def check_sample_banks(facts, out):
                            'addition bank to %s only (a file sample always carries the normal bank)') % (
                 'not' if fa and fa[0] else '', sorted(fa[1]) if fa else '?', sorted(add_names)), ordinal=False)
     okn = bool(fn) and fn[0] is False and fn[1] == {'HIT_NORMAL'}
+    if not ok or not okn:
+        # any spelling of the two selectors: fold each predicate over a sample's name on the five kinds of names
+        vecs = _name_predicate_vectors(facts, enc)
+        if (True, False, False, False, False) in vecs and not okn:
+            okn = True
+        if (False, True, True, True, False) in vecs and not ok and not (add_names & expected_excl):
+            ok = True
+            out.insts = [i for i in out.insts if not i.key.endswith('/addition-bank-source')]
+            out.add('KT-K6', 'encode::get_sample_bank', 'addition-bank-source', 'src/encode.rs', True, '',
+                    {'via': 'predicate folded over the sample names'}, ordinal=False)
     out.add('KT-K6', 'encode::get_sample_bank', 'normal-bank-source', 'src/encode.rs', okn,
             '' if okn else 'the normal bank is not taken from the HIT_NORMAL sample', ordinal=False)
